@@ -18,6 +18,10 @@ def run_batch(cases, backends="vm,wasm", want_model=True, nshards=None, timeout=
     """cases: list of dict(id, src, sx, inputs, times, scheduler?, path?). Returns dict id -> (vm, wasm, model) raw strings.
     `timeout` (seconds) bounds one harness process: when it expires the first case without an answer is recorded as
     `timeout …` (a hang) and the rest of the shard goes on in a fresh process."""
+def run_batch(cases, backends="vm,wasm", want_model=True, nshards=None, want_mir=False):
+    """cases: list of dict(id, src, sx, inputs, times, scheduler?). Returns dict id -> [vm, wasm, model] raw strings;
+    with want_mir a fourth entry: the Lean MIR semantics (`drv_mir`) run on the dump of the real compiler's MIR
+    (`mir` binary): `ok nout bits` | `unsupported …` | `stuck …` | `fuel` | `compile-error` | None."""
     nshards = nshards or min(NCPU, max(1, len(cases) // 20))
     shards = [cases[i::nshards] for i in range(nshards)]
 
@@ -50,6 +54,10 @@ def run_batch(cases, backends="vm,wasm", want_model=True, nshards=None, timeout=
             died = died or "harness-died rc=%s %s" % (p.returncode, p.stderr[-200:].replace("\n", " ").replace("\t", " "))
             res[crasher["id"]] = [died, died, None]
             todo = missing[1:]
+        if want_mir:
+            for v in res.values():
+                v.append(None)
+            mir_run(sh, res)
         if want_model:
             def model_run(cs, timeout):
                 minp = "".join(f"{c['id']}\t{c['times']}\t{coregen.inputs_field(c['inputs'])}\t{c['sx']}\n" for c in cs if c.get("sx"))
@@ -73,6 +81,160 @@ def run_batch(cases, backends="vm,wasm", want_model=True, nshards=None, timeout=
     for r in parallel(shards, work, nproc=nshards):
         out.update(r)
     return out
+
+
+def mir_run(cases, res):
+    """fourth opinion: dump the MIR of every case with the real compiler, run the Lean MIR semantics on it"""
+    todo = [c for c in cases if c["id"] in res]
+    dumps = {}
+    while todo:
+        inp = "".join(json.dumps({"id": c["id"], "src": c["src"], "scheduler": c.get("scheduler", False),
+                                  **({"path": c["path"]} if c.get("path") else {})}) + "\n" for c in todo)
+        p = run([os.path.join(BIN, "mir")], input=inp, timeout=3600)
+        for l in p.stdout.splitlines():
+            f = l.split("\t")
+            if len(f) >= 3:
+                dumps[f[0]] = (f[1], f[2])
+        missing = [c for c in todo if c["id"] not in dumps]
+        if not missing:
+            break
+        dumps[missing[0]["id"]] = ("harness-died", "")
+        todo = missing[1:]
+    minp = []
+    for c in cases:
+        if c["id"] not in res:
+            continue
+        st, sx = dumps.get(c["id"], ("missing", ""))
+        if st == "ok":
+            minp.append(f"{c['id']}\t{c['times']}\t{coregen.inputs_field(c['inputs'])}\t{sx}\n")
+        else:
+            res[c["id"]][3] = st
+    if minp:
+        import subprocess
+        try:
+            q = run([os.path.join(LEANBIN, "drv_mir")], input="".join(minp), timeout=600)
+            for l in q.stdout.splitlines():
+                f = l.split("\t")
+                if len(f) >= 2 and f[0] in res:
+                    res[f[0]][3] = f[1]
+        except subprocess.TimeoutExpired:
+            for c in cases:
+                if c["id"] in res and res[c["id"]][3] is None:
+                    res[c["id"]][3] = "skip:mir-timeout"
+
+
+def mir_static(cases, nshards=None):
+    """static checks of the Lean MIR model on the dump of every case's MIR (`drv_mir`, mode `static`).
+    Returns id -> dict(status, fns, ok, checked, fail=[labels], wf, wffail=[labels], enc, fwdnested); status != "ok": the
+    program did not compile / dump.  ok/fail: `stateOkFn` (C05); wf/wffail: `wfFn` (C03); enc: functions whose control skeleton
+    `RustGen.encode` accepts; fwdnested: functions whose skeleton is `forward` and `nested` (C18)."""
+    nshards = nshards or min(NCPU, max(1, len(cases) // 50))
+    shards = [cases[i::nshards] for i in range(nshards)]
+
+    def work(sh):
+        out = {}
+        if not sh:
+            return out
+        inp = "".join(json.dumps({"id": c["id"], "src": c["src"], "scheduler": c.get("scheduler", False)}) + "\n" for c in sh)
+        p = run([os.path.join(BIN, "mir")], input=inp, timeout=3600)
+        lines = []
+        for l in p.stdout.splitlines():
+            f = l.split("\t")
+            if len(f) >= 3 and f[1] == "ok":
+                lines.append(f"{f[0]}\tstatic\t-\t{f[2]}\n")
+            elif len(f) >= 2:
+                out[f[0]] = {"status": f[1]}
+        q = run([os.path.join(LEANBIN, "drv_mir")], input="".join(lines), timeout=600)
+        for l in q.stdout.splitlines():
+            f = l.split("\t")
+            w = f[1].split(" ") if len(f) >= 2 else []
+            if len(w) >= 5 and w[0] == "stateok":
+                fail = w[4][len("fail="):]
+                kv = dict(x.split("=", 1) for x in w[5:] if "=" in x)
+                out[f[0]] = {"status": "ok", "fns": int(w[1]), "ok": int(w[2]), "checked": w[3] == "checked=true",
+                             "fail": [x.split(":", 1)[1] for x in fail.split(",") if x],
+                             "wf": int(kv.get("wf", 0)), "wffail": [x.split(":", 1)[1] for x in kv.get("wffail", "").split(",") if x],
+                             "enc": int(kv.get("enc", 0)), "fwdnested": int(kv.get("fwdnested", 0))}
+            elif len(f) >= 2:
+                out[f[0]] = {"status": f[1]}
+        return out
+    res = {}
+    for r in parallel(shards, work, nproc=nshards):
+        res.update(r)
+    return res
+
+
+def mir_traces(cases, nshards=None):
+    """per-sample state access trace, cursor and global storage words of the Lean MIR run (`drv_mir`, mode `trace`), in the
+    record format of harness/src/bin/c05.rs.  Returns id -> `ok rec|rec|…` | `unsupported …` | `stuck …` | status of the dump."""
+    nshards = nshards or min(NCPU, max(1, len(cases) // 50))
+    shards = [cases[i::nshards] for i in range(nshards)]
+
+    def work(sh):
+        out = {}
+        if not sh:
+            return out
+        byid = {c["id"]: c for c in sh}
+        inp = "".join(json.dumps({"id": c["id"], "src": c["src"]}) + "\n" for c in sh)
+        p = run([os.path.join(BIN, "mir")], input=inp, timeout=3600)
+        lines = []
+        for l in p.stdout.splitlines():
+            f = l.split("\t")
+            if len(f) >= 3 and f[1] == "ok":
+                c = byid[f[0]]
+                lines.append(f"{f[0]}\ttrace\t{c['times']}\t{coregen.inputs_field(c['inputs'])}\t{f[2]}\n")
+            elif len(f) >= 2:
+                out[f[0]] = f[1]
+        q = run([os.path.join(LEANBIN, "drv_mir")], input="".join(lines), timeout=600)
+        for l in q.stdout.splitlines():
+            f = l.split("\t")
+            if len(f) >= 2:
+                out[f[0]] = f[1]
+        return out
+    res = {}
+    for r in parallel(shards, work, nproc=nshards):
+        res.update(r)
+    return res
+
+
+def mir_class(vm, wasm, model, mir):
+    """cell of the agreement matrix for one program (raw outcome strings; wasm / model may be None or `-`)"""
+    v = norm_impl(vm) if vm and vm.startswith("ok") else None
+    w = norm_impl(wasm) if wasm and wasm.startswith("ok") else None
+    m = model if model and model.startswith("ok") else None
+    if mir is None or not mir.startswith("ok"):
+        key = "mir:" + (mir or "none").split(" ")[0].split(":")[0]
+        if vm and not vm.startswith("ok") and vm != "-":
+            key += ",vm:" + vm.split(" ")[0]
+        return key
+    eq = lambda a: a is not None and a == mir
+    return "mir" + ("=vm" if eq(v) else ("!vm" if v is not None else (",vm:" + vm.split(" ")[0] if vm and vm != "-" else ""))) + \
+                   ("=wasm" if eq(w) else ("!wasm" if w is not None else "")) + \
+                   ("=ref" if eq(m) else ("!ref" if m is not None else ""))
+
+
+def mir_verdict(vm, wasm, model, mir):
+    """None, or why the fourth opinion is a MODEL defect: every other opinion that ran agrees with every other, and the
+    Lean MIR run does not (differs, is stuck, or ran out of fuel). `unsupported` is counted, not judged."""
+    if mir is None or mir.startswith("unsupported") or mir.startswith("skip:") or mir == "compile-error":
+        return None
+    others = [norm_impl(x) for x in (vm, wasm) if x and x != "-"] + ([model] if model and not model.startswith("skip:") else [])
+    if not others or not all(o.startswith("ok") and o == others[0] for o in others):
+        return None          # the opinions that ran do not agree with each other: judged by the caller, the MIR run localises
+    if mir.startswith("ok"):
+        return None if mir == others[0] else "mir-run-differs"
+    return "mir-run-" + mir.split(" ")[0]
+
+
+def mir_localise(impl, model, mir):
+    """where a disagreement between one back end (`impl`, raw) and the reference semantics sits, according to the MIR run"""
+    if mir is None or not mir.startswith("ok"):
+        return "mir run: " + str(mir)[:120]
+    if model is not None and mir == model:
+        return "back end (the MIR the compiler produced means what the reference semantics says)"
+    if impl.startswith("ok") and mir == norm_impl(impl):
+        return "mirgen or earlier (the MIR already means what the back end computes)"
+    return "unclear (the MIR run agrees with neither)"
 
 
 def gen_cases(seed, n, profile, times, start=0):
